@@ -71,7 +71,13 @@ def h_milp(s, rows, c, U, integers, minimize, heuristics=True, warm=None, lns=0,
         s.goal("milp.warm_start")
     res = mod.solve_milp(cin, Ain, bin_, list(integers), minimize=minimize, seed=1, **kw)
     st = res.status
-    s.observe("status", int(st))
+    # with a tight node / pivot limit the outcome depends on which node is explored first, and exact ties in "most fractional" (1/3 vs 2/3)
+    # are broken by float rounding natively: such runs are held to the obligations but not compared value-by-value with the native run
+    limited = max_nodes < 500 or lp_budget
+    if not limited:
+        s.observe("status", int(st))
+    else:
+        s.observe("ran", 1)
     sign = 1 if minimize else -1
     cont = [j for j in range(n) if j not in integers]
     if cont:
@@ -132,8 +138,9 @@ def h_milp(s, rows, c, U, integers, minimize, heuristics=True, warm=None, lns=0,
         s.goal("milp.optimal")
     if res.iterations > 1:
         s.goal("milp.branching")
-    s.observe("objective", res.objective)
-    s.observe("x_len", len(x))
+    if not limited:
+        s.observe("objective", res.objective)
+        s.observe("x_len", len(x))
 
 
 def branching_cells(rng, want):
@@ -217,6 +224,11 @@ def items(tier, rng):
         rows = [[rng.choice((1, 2, 3)) for _ in range(nv)] for _ in range(rng.choice([1, 2]))]
         c = [rng.choice((1, 2, 3, 4)) for _ in range(nv)]
         cells.append((rows, c, 1, list(range(nv))))
+    for _ in range(32 if q else 200):
+        # two binary variables, one or two general rows with a wider coefficient range: small trees that reach fully fixed leaves
+        rows = [[rng.choice((-3, -2, -1, 1, 2, 3, 4, 5)) for _ in range(2)] for _ in range(rng.choice([1, 1, 2]))]
+        c = [rng.choice((-4, -3, -2, -1, 1, 2, 3, 4)) for _ in range(2)]
+        cells.append((rows, c, 1, [0, 1]))
     for _ in range(16 if q else 120):
         # three variables, two of them integer, explicit x_j <= 1 rows on SOME variables only (integer or continuous)
         rows = [[rng.choice((-2, -1, 0, 1, 2)) for _ in range(3)] for _ in range(2)]
